@@ -55,8 +55,7 @@ def payload(n, fill):
 
 
 # ------------------------------------------------------------------ alpha: real objects -> model grammar
-class LenMismatch(Exception):
-    pass
+LEN_MISMATCH = []
 
 
 def a_pdu(p):
@@ -72,7 +71,9 @@ def a_pdu(p):
     else:
         body = bytes(p.encode())[2:]
     if len(p) != p.header_size + len(body):
-        raise LenMismatch('%s: len()=%d, header %d + information field %d' % (p.name, len(p), p.header_size, len(body)))
+        # len(pdu) is what collect()/dequeue()/AggregatedFrame.__len__ budget with; remember, the step reports it
+        LEN_MISMATCH.append('%s: len(pdu) = %d, encoded with %d octets (header %d + information field %d)'
+                            % (p.name, len(p), p.header_size + len(body), p.header_size, len(body)))
     return '%d %d %d %d %d %s' % (pt, p.dsap, p.ssap, ns, nr, hexs(body))
 
 
@@ -392,9 +393,13 @@ class Sender(object):
         self.socks[key] = s
         self._learnt(s, v, 'CONNECT')
 
-    def op_connect_start(self, key, addr, dest):
+    def op_connect_start(self, key, addr, dest, rwin=None, rmiu=None):
         """llc.connect() in a thread; it queues CONNECT and waits for the answer"""
         s = self.llc.socket(nfc.llcp.DATA_LINK_CONNECTION)
+        if rwin is not None:
+            self.llc.setsockopt(s, nfc.llcp.SO_RCVBUF, rwin)
+        if rmiu is not None:
+            self.llc.setsockopt(s, nfc.llcp.SO_RCVMIU, rmiu)
         if not self._bind(s, addr):
             return
 
@@ -562,13 +567,19 @@ def run_scenario(ck, sc, lines, expect, maxframes=8):
         """one collect(); returns True if a frame came out"""
         k = frame_no[0]
         frame_no[0] += 1
-        try:
-            pre = a_state(snd.llc)
-            f = snd.llc.collect()
-            post = a_state(snd.llc)
-        except LenMismatch as e:
-            ck.violation('len-mismatch', 'len(pdu) differs from the encoded length: %s' % e, {'scenario': sc})
-            return False
+        del LEN_MISMATCH[:]
+        pre = a_state(snd.llc)
+        f = snd.llc.collect()
+        post = a_state(snd.llc)
+        if f is not None:
+            try:
+                a_frame(f)
+            except P.EncodeError:
+                pass                # handled below: nothing is sent
+        if LEN_MISMATCH:
+            # the budget arithmetic works on a wrong length; the frame itself is still measured below, from its bytes
+            ck.violation('len-mismatch:' + LEN_MISMATCH[0].split(':')[0], 'the length collect() budgets with differs from the '
+                         'encoded length - %s' % LEN_MISMATCH[0], {'scenario': sc, 'frame_index': k})
         lines.append('collect fixed %d %d %s %s' % (miu, int(agf), '-' if snd.icv is None else snd.icv, pre))
         if f is None:
             expect.append(('ok none | none | 0 | ' + post, 'collect', sc, k))
@@ -772,7 +783,8 @@ def gen_dlc(rng):
         annc = rng.choice([128, 128, miu, miu + 7, rng.randrange(128, 2176)])
         swin, rwin = rng.randrange(1, 16), rng.randrange(1, 16)
         if rng.random() < 0.4:
-            script.append(['listen', 'l%d' % i, rng.choice([None, 'urn:nfc:sn:s%d' % i]), rwin, rng.choice([128, 248, 1000])])
+            script.append(['listen', 'l%d' % i, rng.choice([None, 'urn:nfc:sn:s%d' % i]), rng.choice([0, 1, 2, 15, rwin]),
+                           rng.choice([128, 248, 1000])])
             script.append(['accept', 'l%d' % i, key, 10 + i, annc, swin])
         else:
             script.append(['dlc', key, 40 + i, 10 + i, annc, swin, rwin])
@@ -827,6 +839,10 @@ def gen_threaded(rng):
 
 
 CORPUS = [
+    # CC / CONNECT that announce a receive window of 0 (RW TLV encoded) next to a UI PDU that just fits / just does not
+    dict(family='corpus', miu=128, agf=True, script=[['listen', 'l', 'urn:nfc:sn:svc', 0, 128], ['accept', 'l', 'c', 32, 128, 1],
+                                                     ['ldl', 'u', 33], ['sendto', 'u', 119, 17, 1]]),
+    dict(family='corpus', miu=128, agf=True, script=[['connectpdu', 'k', 32, 16, 128, 0], ['ldl', 'u', 33], ['sendto', 'u', 118, 17, 1]]),
     # secure data transfer: I PDU 10 + I PDU that fits only without its ICV (MIU 128, ICV 4, spare 1 and 4)
     dict(family='corpus', miu=128, agf=True, icv=4, script=[['dlc', 'c', 40, 16, 128, 4, 1], ['send', 'c', 10, 1], ['send', 'c', 103, 2]]),
     dict(family='corpus', miu=131, agf=True, icv=4, script=[['dlc', 'c', 40, 16, 131, 4, 1], ['send', 'c', 10, 1], ['send', 'c', 103, 2]]),
@@ -996,6 +1012,33 @@ def secure(rng, sc):
     return sc
 
 
+def conn_setup(rng, miu, how, rwin, rmiu, d, first):
+    """a connection-mode socket with receive window rwin and receive MIU rmiu accepts (CC pending) or connects
+    (CONNECT pending) while connection-less data fills the aggregate to within d octets of the remote MIU"""
+    tlvs = (4 if min(rmiu, 248) > 128 else 0) + (3 if rwin != 1 else 0)     # MIUX / RW TLVs of the encoded CC / CONNECT
+    n = miu - d - (2 + 2 + tlvs) - (2 + 2)                                   # UI payload: CC/CONNECT + UI = miu - d
+    if how == 'cc':
+        setup = [['listen', 'l', 'urn:nfc:sn:svc' if first else None, rwin, rmiu], ['accept', 'l', 'c', 9, rng.choice([128, 300]), 2]]
+    elif how == 'cc-raw':
+        setup = [['listen', 'l', 'urn:nfc:sn:svc' if first else None, rwin, rmiu], ['accept_raw', 'l', 'c', 9, rng.choice([None, 0x78]), 1]]
+    elif how == 'connect':
+        setup = [['connectpdu', 'k', 33 if first else 60, 17, rmiu, rwin]]
+    else:
+        setup = [['connect_start', 'k', 33 if first else 60, 17, rwin, rmiu]]
+    filler = [['ldl', 'u', 45], ['sendto', 'u', max(0, n), 16, d]]
+    script = setup + filler
+    if rng.random() < 0.3:
+        script += [['sendto', 'u', rng.randrange(0, 4), 17, 9]]
+    if rng.random() < 0.2:
+        script += [['dlc', 'e', 50, 20, 128, 1, 1], ['rx', 'e', 1, 1]]
+    return dict(family='conn-setup-' + how, miu=miu, agf=True, script=script)
+
+
+def gen_conn_setup(rng):
+    return conn_setup(rng, pick_miu(rng), rng.choice(['cc', 'cc', 'cc-raw', 'connect', 'connect-thread']),
+                      rng.choice([0, 0, 1, 2, 15]), rng.choice([128, 248, 248, 1000]), rng.randrange(0, 5), rng.random() < 0.7)
+
+
 def interleave(rng, sc):
     """now and then call collect() in the middle of the script"""
     if rng.random() < 0.3 and len(sc['script']) > 2:
@@ -1025,9 +1068,12 @@ def scenarios(ck):
             yield sweep_sec(miu, 4, 'IU'[(miu + spare) % 2], spare, 10 + miu % 5)
     for _ in range(300 if quick else 6000):
         yield interleave(rng, gen_sec(rng))
+    # CC / CONNECT with a receive window of 0 / 1 / 2 / 15 and a non-default MIU next to a filler, for every MIU
+    for miu in range(128, 256 if quick else 2176):
+        yield conn_setup(rng, miu, ('cc', 'connect', 'cc-raw')[miu % 3], (0, 1, 2, 15, 0)[miu % 5], (248, 128)[miu % 2], miu % 4, miu % 7 != 0)
     n = 4000 if quick else 60000
     gens = [(gen_sdres, 5), (gen_sdreq, 4), (gen_ui_pair, 5), (gen_first_plus_ack, 6), (gen_budget_snl, 4), (gen_dlc, 8),
-            (gen_mix, 3), (gen_raw, 1)]
+            (gen_mix, 3), (gen_raw, 1), (gen_conn_setup, 4)]
     tot = sum(w for _, w in gens)
     for g, w in gens:
         for _ in range(n * w // tot):
